@@ -378,6 +378,17 @@ class UndeclaredNameVisitor(NodeVisitor):
 
         self._visit_scope(*node.targets, *node.body)
 
+    def visit_Import(self, node: nodes.Import) -> None:
+        # the name a template is imported as is bound like a ``set`` target
+        self.visit(node.template)
+        self.names.discard(node.target)
+
+    def visit_FromImport(self, node: nodes.FromImport) -> None:
+        self.visit(node.template)
+
+        for name in node.names:
+            self.names.discard(name[1] if isinstance(name, tuple) else name)
+
     def visit_Scope(self, node: nodes.Scope) -> None:
         self._visit_scope(*node.body)
 
@@ -1919,8 +1930,12 @@ class CodeGenerator(NodeVisitor):
         self.visit(node.target, frame)
         if node.filter is not None:
             # The filter gets the captured block as Markup, but may return
-            # a plain string that still needs escaping.
-            self.write(" = (escape if context.eval_ctx.autoescape else identity)(")
+            # a plain string that still needs escaping.  A result that is
+            # not a string (a number, a list) keeps its type.
+            self.write(
+                " = (lambda rv: escape(rv) if context.eval_ctx.autoescape"
+                " and isinstance(rv, str) else rv)("
+            )
             # as for a filter block: arguments in the enclosing scope
             arg_frame = frame.copy()
             arg_frame.buffer = block_frame.buffer
